@@ -1,5 +1,5 @@
 //! C17 — PersonName text round trip (core/src/value/person_name.rs)
-use crate::util::*;
+use vhc::*;
 use dicom_core::value::person_name::{PersonName, PersonNameBuilder};
 use serde_json::json;
 
